@@ -171,6 +171,30 @@ def h_streett_transducer(ctx):
         enabled = spec.forall(xp, spec.exists(yp, impl))
     w.oblige(f'transducer (iterates of length {L}): never blocks on Inv (a step is allowed for every next environment value if Mealy; one choice for all if Moore)',
              _valid_all(w, z3.Implies(Inv, enabled)), hyps=hyps, kind='bounded-L')
+    # ---- 8. progress (ranking argument of the liveness proof): from a state of
+    # Inv with _goal = j whose FIRST trap in the order (r, k) is x[j][r][k], every
+    # allowed step under the environment action either (A) serves goal j and
+    # moves the counter to (j + 1) mod n_goals inside z, or keeps the counter
+    # and (B) lands in an earlier trap, or (C) stays in that trap with h_k true.
+    tzp = spec.primed(w, tz)
+    for j in range(J):
+        order = [(r, k) for r in range(L) for k in range(K)]
+        U = {pk: w.term(xijk[j][pk[0]][pk[1]]) for pk in order}
+        Up = {pk: spec.primed(w, U[pk]) for pk in order}
+        A = z3.And(tg[j], cp == (j + 1) % J, tzp)
+        cases = list()
+        for n_, pk in enumerate(order):
+            earlier = order[:n_]
+            first = z3.And(U[pk], *[z3.Not(U[q]) for q in earlier])
+            lower = z3.Or(*[Up[q] for q in earlier]) if earlier else z3.BoolVal(False)
+            cases.append(z3.Implies(first, z3.Or(A, z3.And(
+                cp == j, z3.Or(lower, z3.And(th[pk[1]], Up[pk]))))))
+        w.oblige(f'transducer (iterates of length {L}): progress: every allowed step from Inv with _goal = j serves goal j and advances the counter to (j + 1) mod n_goals, or moves to an earlier trap, or stays in the first trap x[j][r][k] with h_k true',
+                 _valid_all(w, z3.Implies(z3.And(Inv, c == j, impl, tE), z3.And(*cases))),
+                 hyps=hyps, kind='bounded-L')
+    if J > 1:
+        w.canary('transducer canary: the counter never advances',
+                 _valid_all(w, z3.Implies(z3.And(Inv, impl, tE), cp == c)), hyps=hyps)
     w.oblige('transducer: admitted initial states are inside Inv when the environment\'s initial condition holds',
              _valid_all(w, z3.Implies(z3.And(w.term(aut.init['impl']), tEi, verdict), Inv))
              if qinit != r'\A \A' else z3.BoolVal(True), hyps=hyps, kind='bounded-L')
